@@ -1,6 +1,6 @@
 use super::{
-    full_path_prefix, BoundQuery, Query, QueryValidationError, ResolvedFragmentId, Selection,
-    SelectionId,
+    full_path_prefix, operations::OperationType, BoundQuery, Query, QueryValidationError,
+    ResolvedFragmentId, Selection, SelectionId,
 };
 use crate::schema::TypeId;
 use std::collections::BTreeSet;
@@ -48,6 +48,55 @@ pub(super) fn validate_typename_presence(
     }
 
     Ok(())
+}
+
+/// A subscription selects exactly one root field, also when its fields come in through inline
+/// fragments or fragment spreads (`subscription S { ...F }` with `fragment F on Subscription { a b }`).
+pub(super) fn validate_subscription_root_fields(
+    query: &BoundQuery<'_>,
+) -> Result<(), QueryValidationError> {
+    for operation in query.query.operations.iter() {
+        if let OperationType::Subscription = operation._operation_type {
+            let mut visited_fragments = BTreeSet::new();
+            let root_fields =
+                count_root_fields(&operation.selection_set, query.query, &mut visited_fragments);
+
+            if root_fields > 1 {
+                return Err(QueryValidationError::new(
+                    crate::constants::MULTIPLE_SUBSCRIPTION_FIELDS_ERROR.to_owned(),
+                ));
+            }
+        }
+    }
+
+    Ok(())
+}
+
+fn count_root_fields(
+    selection_set: &[SelectionId],
+    query: &Query,
+    visited_fragments: &mut BTreeSet<ResolvedFragmentId>,
+) -> usize {
+    let mut count = 0;
+
+    for id in selection_set {
+        count += match query.get_selection(*id) {
+            Selection::Field(_) | Selection::Typename => 1,
+            Selection::InlineFragment(inline) => {
+                count_root_fields(&inline.selection_set, query, visited_fragments)
+            }
+            Selection::FragmentSpread(fragment_id) => {
+                if visited_fragments.insert(*fragment_id) {
+                    let fragment = query.get_fragment(*fragment_id);
+                    count_root_fields(&fragment.selection_set, query, visited_fragments)
+                } else {
+                    0
+                }
+            }
+        };
+    }
+
+    count
 }
 
 fn selection_set_contains_type_name(
